@@ -106,8 +106,11 @@ func (s *SelfManaged) Receive(c *actor.Context) {
 	case memberPing:
 		s.handleMemberPing(c)
 	case memberLeave:
-		member := s.members.GetByHost(msg.ListenAddr)
-		s.removeMember(member)
+		// an unreachable address that is not (or no longer) one of our members
+		// is none of our business.
+		if member := s.members.GetByHost(msg.ListenAddr); member != nil {
+			s.removeMember(member)
+		}
 	case *actor.Ping:
 	case actor.Initialized:
 		_ = msg
